@@ -82,11 +82,46 @@ def templates(rng):
     return fs
 
 
+def helper_templates(rng):
+    """(helpers, exported functions): non-exported helpers that index-/swizzle-write their own vector or matrix parameter
+    and are fed with *globals*; call chains of depth 2-3 in which only the innermost helper touches a global"""
+    from ..lang import Call
+    gi, gf, gv, gm = V("gi", INT), V("gf", FLOAT), V("gv", F3), V("gm", M3)
+    v, i, x, n = V("v", F3), V("i", INT), V("x", FLOAT), V("n", INT)
+    idx = B("%", B("*", i, i), I(3))
+    h_put = Func("h_put", [(F3, "v"), (INT, "i"), (FLOAT, "x")], F3, Block([ExprStmt(Assign("=", Index(v, idx, FLOAT), x)), Return(v)]), False)
+    h_swz = Func("h_swz", [(F3, "v"), (FLOAT, "x")], FLOAT, Block([ExprStmt(Assign("=", Swizzle(v, "zx"), Construct(F2, [x, x]))),
+                                                                  Return(B("+", Swizzle(v, "x"), Swizzle(v, "z")))]), False)
+    h_row = Func("h_row", [(M3, "m"), (INT, "i"), (FLOAT, "x")], FLOAT,
+                 Block([ExprStmt(Assign("=", Index(Index(V("m", M3), idx, F3), I(1), FLOAT), x)), Return(Index(Index(V("m", M3), I(1), F3), I(1), FLOAT))]), False)
+    h_scl = Func("h_scl", [(F3, "v"), (FLOAT, "x")], F3, Block([ExprStmt(Assign("*=", v, x)), Return(v)]), False)
+    inner = Func("inner", [(FLOAT, "x")], FLOAT, Block([Return(B("*", x, gi))]), False)
+    mid = Func("mid", [(FLOAT, "x")], FLOAT, Block([Return(B("+", Call("inner", [x], FLOAT, inner), F(1.0)))]), False)
+    outer = Func("outer", [(FLOAT, "x")], FLOAT, Block([Return(B("*", Call("mid", [x], FLOAT, mid), F(2.0)))]), False)
+    bumpg = Func("bumpg", [(INT, "n")], INT, Block([ExprStmt(Assign("=", gi, B("+", gi, n))), Return(gi)]), False)
+    viab = Func("viab", [(INT, "n")], INT, Block([Return(B("+", Call("bumpg", [n], INT, bumpg), I(100)))]), False)
+    helpers = [h_put, h_swz, h_row, h_scl, inner, mid, outer, bumpg, viab]
+    exported = [
+        fn("put_via", [(INT, "i"), (FLOAT, "x")], FLOAT, [Decl(F3, "r", Call("h_put", [gv, i, x], F3, h_put)),
+                                                         Return(B("+", B("*", Index(V("r", F3), I(0), FLOAT), F(100.0)), Index(gv, I(0), FLOAT)))]),
+        fn("swz_via", [(FLOAT, "x")], FLOAT, [Return(B("+", Call("h_swz", [gv, x], FLOAT, h_swz), Swizzle(gv, "x")))]),
+        fn("row_via", [(INT, "i"), (FLOAT, "x")], FLOAT, [Return(B("+", Call("h_row", [gm, i, x], FLOAT, h_row), Index(Index(gm, I(1), F3), I(1), FLOAT)))]),
+        fn("scl_via", [(FLOAT, "x")], F3, [Decl(F3, "r", Call("h_scl", [gv, x], F3, h_scl)), Return(B("+", V("r", F3), gv))]),
+        fn("own_put", [(F3, "v"), (INT, "i"), (FLOAT, "x")], F3, [ExprStmt(Assign("=", Index(v, idx, FLOAT), x)), Return(v)]),
+        fn("apply", [(FLOAT, "x")], FLOAT, [Return(Call("outer", [x], FLOAT, outer))]),
+        fn("apply_mid", [(FLOAT, "x")], FLOAT, [Return(B("+", Call("mid", [x], FLOAT, mid), Call("mid", [x], FLOAT, mid)))]),
+        fn("bump_via", [(INT, "n")], INT, [Return(B("+", Call("viab", [n], INT, viab), Call("viab", [n], INT, viab)))]),
+    ]
+    return helpers, exported
+
+
 def gen_module(rng):
     fs = templates(rng)
     k = rng.randint(5, len(fs))
     chosen = rng.sample(fs, k)
-    return Module(structs=list(STRUCTS), globals=list(GLOBALS), funcs=chosen)
+    helpers, exported = helper_templates(rng)
+    extra = rng.sample(exported, rng.randint(2, len(exported)))
+    return Module(structs=list(STRUCTS), globals=list(GLOBALS), funcs=helpers + chosen + extra)
 
 
 def gen_history(rng, module, nvms, length):
@@ -96,13 +131,28 @@ def gen_history(rng, module, nvms, length):
         for t, n in module.globals:
             ops.append((v, "set", n, gcore.rand_value(rng, t, module)))
     fns = [f for f in module.funcs if f.exported]
+    last_call = {}
     for _ in range(length):
         v = rng.randrange(nvms)
         r = rng.random()
         if r < 0.70:
             f = rng.choice(fns)
-            args = {n: gcore.rand_value(rng, t, module) for t, n in f.params}
+            if (v, f.name) in last_call and rng.random() < 0.35:
+                args = last_call[(v, f.name)]          # the very same argument values again
+            else:
+                args = {n: gcore.rand_value(rng, t, module) for t, n in f.params}
+            last_call[(v, f.name)] = args
             ops.append((v, "invoke", f.name, args))
+        elif r < 0.76 and module.globals:
+            # the host hands the VM one object both as a global and as an argument (by-value semantics must hold)
+            cands = [(t, n) for t, n in module.globals if any(pt == t for ff in fns for pt, _ in ff.params)]
+            if cands:
+                t, n = rng.choice(cands)
+                f = rng.choice([ff for ff in fns if any(pt == t for pt, _ in ff.params)])
+                pn = [pn_ for pt, pn_ in f.params if pt == t][0]
+                args = {n2: gcore.rand_value(rng, t2, module) for t2, n2 in f.params}
+                ops.append((v, "invoke_shared", f.name, {"args": args, "param": pn, "global": n}))
+            continue
         elif r < 0.85:
             t, n = rng.choice(module.globals)
             ops.append((v, "get", n, None))
